@@ -273,7 +273,7 @@ def sched_witness(tasks):
     return W(key, code, 'compile', None, note)
 
 
-@family('V-SCHED', props=['C12', 'C07', 'C08'], floor={'quick': 80, 'thorough': 1500},
+@family('V-SCHED', props=['C12', 'C07', 'C08'], quick_props=['C12'], floor={'quick': 80, 'thorough': 1500},
         doc='for every schedule of the family the compile-time Stages type equals the reference greedy partition by declared access (both directions: conflicting tasks are never grouped, independent adjacent tasks are grouped)')
 def v_sched(tier, seed):
     K5 = [None] + KINDS
